@@ -22,12 +22,12 @@ func init() {
 // ---- freshness of catalogs / collections ---------------------------------------
 
 type freshKind struct {
-	c         *Ctx
-	cloneFns  map[*types.Func]bool // calls producing a fresh object
-	fieldFwd  *types.Var           // field through which store-to-load forwarding is allowed (Transaction.catalog)
-	depth     int
-	paramOK   func(fn *ssa.Function, p *ssa.Parameter) (bool, string)
-	whyNot    string
+	c        *Ctx
+	cloneFns map[*types.Func]bool // calls producing a fresh object
+	fieldFwd *types.Var           // field through which store-to-load forwarding is allowed (Transaction.catalog)
+	depth    int
+	paramOK  func(fn *ssa.Function, p *ssa.Parameter) (bool, string)
+	whyNot   string
 }
 
 // isFresh: does v denote an object created in this function by one of the clone/constructor calls?
